@@ -253,7 +253,7 @@ func members(p *proc) (map[string]string, error) {
 // nothing changed between two polls; then log every node's views (agreeing or not)
 func observe(ps []*proc, tag string) {
 	var last string
-	dl := time.Now().Add(12 * time.Second)
+	dl := time.Now().Add(45 * time.Second)
 	for time.Now().Before(dl) {
 		cur := ""
 		agree := true
@@ -360,7 +360,7 @@ func writeItemN(ds string, kind string, via *proc, k int, tries int) {
 	u, _ := uuid.FromString(ds)
 	emit(event{"ev": "wsubmit", "kind": kind, "id": k})
 	var err error
-	uncertain := false
+	uncertain, allErrs := false, ""
 	for try := 0; try < tries; try++ {
 		ctx, cancel := context.WithTimeout(context.Background(), 3*time.Second)
 		cl := pb.NewDataManagerClient(via.conn)
@@ -378,6 +378,7 @@ func writeItemN(ds string, kind string, via *proc, k int, tries int) {
 		}
 		// this attempt may or may not have taken effect: whatever the next one says is no longer definite
 		uncertain = true
+		allErrs += err.Error()
 		time.Sleep(400 * time.Millisecond)
 	}
 	okv, es, res := 1, "", "ok"
@@ -396,7 +397,11 @@ func writeItemN(ds string, kind string, via *proc, k int, tries int) {
 		// a remove / update acknowledged after an attempt of unknown fate: the earlier one may have done it
 		res = "ok"
 	}
-	emit(event{"ev": "wack", "kind": kind, "id": k, "ok": okv, "err": es, "res": res})
+	closed := 0
+	if strings.Contains(es+allErrs, "connection is closing") {
+		closed = 1
+	}
+	emit(event{"ev": "wack", "kind": kind, "id": k, "ok": okv, "err": es, "res": res, "closed": closed})
 }
 
 func findItems(ds string, ps []*proc, tag string) {
@@ -406,7 +411,7 @@ func findItems(ds string, ps []*proc, tag string) {
 			continue
 		}
 		ids := []int{}
-		es := ""
+		es, firstErr := "", ""
 		for try := 0; try < 15; try++ {
 			ids, es = []int{}, ""
 			ctx, cancel := context.WithTimeout(context.Background(), 3*time.Second)
@@ -423,6 +428,7 @@ func findItems(ds string, ps []*proc, tag string) {
 				break
 			}
 			es = err.Error()
+			firstErr += es
 			time.Sleep(500 * time.Millisecond)
 		}
 		sort.Ints(ids)
@@ -456,7 +462,12 @@ func findItems(ds string, ps []*proc, tag string) {
 				size = int(sz.GetLen())
 			}
 		}
-		emit(event{"ev": "found", "via": p.id, "after": tag, "ids": ids, "err": es, "size": size, "sizeerr": serr, "top": top, "toperr": toperr})
+		// "the client connection is closing": the node used a client whose connection it has closed itself
+		closed := 0
+		if strings.Contains(es+serr+toperr+firstErr, "connection is closing") {
+			closed = 1
+		}
+		emit(event{"ev": "found", "via": p.id, "after": tag, "ids": ids, "err": es, "size": size, "sizeerr": serr, "top": top, "toperr": toperr, "closed": closed})
 	}
 }
 
@@ -545,7 +556,7 @@ func main() {
 		// a member is removed, stops, and later joins again under the same id (same directory, same address).
 		// A dataset whose partitions are spread over all nodes is written and searched through every node
 		// before and after, so that every node has talked to every other one
-		dd := create(a, 4, 2)
+		dd := create(a, 8, 2)
 		observe(ps, "create")
 		if dd != "" {
 			for k := 1; k <= 12; k++ {
@@ -583,7 +594,7 @@ func main() {
 			for k := 13; k <= 18; k++ {
 				writeItemN(dd, "insert", ps[k%3], k, 1)
 			}
-			for i := 0; i < 3; i++ {
+			for i := 0; i < 5; i++ {
 				findItems(dd, ps, "rejoined")
 			}
 		}
